@@ -98,7 +98,7 @@ def run(ctx):
     for pts in gen.exhaustive_small(4):
         if rng.random() < (0.25 if quick else 1.0):
             chain(ctx, pts, rng.choice(cfgs), 'exhaustive-small')
-    for _ in range(110 if quick else 2500):
+    for _ in range(150 if quick else 3000):
         u = rng.random()
         if u < 0.2:
             pts, fam = symmetric_curve(rng, rng.randrange(4, 20))
